@@ -1168,6 +1168,11 @@ func (app *App) disableSemiSyncOnSlaves(becomeInactive, becomeDataLag []string) 
 
 func (app *App) enableSemiSyncOnSlave(host string, slaveState, masterState *nodestate.NodeState) error {
 	node := app.cluster.Get(host)
+	if node == nil || slaveState == nil || slaveState.SlaveState == nil || masterState == nil || masterState.MasterState == nil {
+		err := fmt.Errorf("replication state of %s or of its master is unknown", host)
+		app.logger.Error().Err(err).Msgf("failed to enable semi_sync_slave on %s", host)
+		return err
+	}
 	err := node.SemiSyncSetSlave()
 	if err != nil {
 		app.logger.Error().Err(err).Msgf("failed to enable semi_sync_slave on %s", host)
